@@ -766,6 +766,7 @@ func (e *MetaCDC) startInternal(info *meta.TaskInfo, ignoreUpdateState bool) err
 	taskPositions, err := e.metaStoreFactory.GetTaskCollectionPositionMetaStore(ctx).Get(ctx, &meta.TaskCollectionPosition{TaskID: info.TaskID}, nil)
 	if err != nil {
 		taskLog.Warn("fail to get the task collection position", zap.Error(err))
+		e.releaseEntityIfUnused(uKey)
 		return servererror.NewServerError(errors.WithMessage(err, "fail to get the task collection position"))
 	}
 
@@ -825,21 +826,24 @@ func (e *MetaCDC) startInternal(info *meta.TaskInfo, ignoreUpdateState bool) err
 		return err
 	}
 	readCtx, cancelReadFunc := context.WithCancel(log.WithTraceID(context.Background(), info.TaskID))
-	replicateEntity.taskQuitFuncs.Insert(info.TaskID, func() {
+	quitFunc := func() {
 		collectionReader.QuitRead(readCtx)
 		channelReader.QuitRead(readCtx)
 		cancelReadFunc()
-	})
-	replicateEntity.refCnt.Inc()
-	replicateEntity.UpdateMapping(GetCollectionMappingFromTaskInfo(info))
+	}
 
 	if !ignoreUpdateState {
 		err = store.UpdateTaskState(e.metaStoreFactory.GetTaskInfoMetaStore(ctx), info.TaskID, meta.TaskStateRunning, []meta.TaskState{meta.TaskStateInitial, meta.TaskStatePaused}, "")
 		if err != nil {
 			taskLog.Warn("fail to update the task meta", zap.Error(err))
+			quitFunc()
+			e.releaseEntityIfUnused(uKey)
 			return servererror.NewServerError(errors.WithMessage(err, "fail to update the task meta, task_id: "+info.TaskID))
 		}
 	}
+	replicateEntity.taskQuitFuncs.Insert(info.TaskID, quitFunc)
+	replicateEntity.refCnt.Inc()
+	replicateEntity.UpdateMapping(GetCollectionMappingFromTaskInfo(info))
 	e.cdcTasks.Lock()
 	info.State = meta.TaskStateRunning
 	info.Reason = ""
@@ -847,6 +851,16 @@ func (e *MetaCDC) startInternal(info *meta.TaskInfo, ignoreUpdateState bool) err
 	collectionReader.StartRead(readCtx)
 	channelReader.StartRead(readCtx)
 	return nil
+}
+
+// releaseEntityIfUnused releases a replicate entity that has no task attached (a start that failed half-way)
+func (e *MetaCDC) releaseEntityIfUnused(uKey string) {
+	e.replicateEntityMap.Lock()
+	defer e.replicateEntityMap.Unlock()
+	if entity, ok := e.replicateEntityMap.data[uKey]; ok && entity.refCnt.Load() == 0 {
+		entity.entityQuitFunc()
+		delete(e.replicateEntityMap.data, uKey)
+	}
 }
 
 func (e *MetaCDC) newReplicateEntity(info *meta.TaskInfo) (*ReplicateEntity, error) {
